@@ -73,6 +73,14 @@ CLAIMS = {
    text="For Hypothesis-drawn histories of multi-effect events (parameterized-replaceable supersession with several indexed tags, kind 0/3, kind-5 deleting several events) EVERY (event, k-th storage mutation) point is faulted on both backends: an injected engine error (SQL: OperationalError from a before_cursor_execute listener; LMDB: lmdb.Error from the engine model) must leave exactly the pre-state, a negative answer and no broadcast (SQL), and the remaining events must then produce the dumps of the history without the failed event; a kill (BaseException out of the writer + reopen for LMDB; engine dropped + file reopened with sqlite3 for SQL; real child processes killed with os._exit on a WAL file for a stratified sample / all points) must leave the pre- or post-state, compared below the relay (events + tag rows / whole keyspace).",
    note="LMDB commit atomicity is assumed (engine modelled): the LMDB verdict is 'all effects of one event are inside one write transaction'. SQLite is exercised for real. PostgreSQL not exercised.",
    tech="fault injection enumerated over every mutation point of generated histories (property-based histories + exhaustive crash points) with before/after raw-dump oracle"),
+ "C14": dict(cat="exploration",
+   text="Exhaustive matrix over the role alphabet {a,r,w}: 8x8 save/query configurations x 9 identities (unauthenticated + every role subset, established through a real NIP-42 AUTH with roles stored by set_auth_roles) x {save, query} x {websocket, direct storage call} x both backends (4608 evaluations): allowed <=> role sets intersect; refused => 'restricted', raw dump unchanged, nothing served or delivered later. Generated output-validator family (hide by pubkey/kind/all/none/privileged viewers) over EVENT/REQ sequences: no hidden event in any stored or live frame. Role storage sequences read back the last assignment.",
+   note="Identities via the real AUTH handshake; SQLite only; LMDB engine modelled.",
+   tech="bounded-exhaustive enumeration of the authorization matrix + property-based sequences with decision-table oracle"),
+ "C15": dict(cat="exploration",
+   text="Sequences of 1-4 AUTH attempts by two identities built from the connection's real challenge and mutated from a 36-entry catalogue (kind, signature, signer, challenge of another live / closed connection / truncated / case / missing / duplicated, relay tag absent / duplicated / substring / host-only / empty / superstring / scheme / port / bare / case / second configured URL, extra tags, created_at at and around both 600 s bounds, non-object payloads, forged id), with relay_urls configured as a list and left at its default; the identity in force is observed through token-dependent behaviour (save needs key A's role, query needs key B's) against MUST/MUST-NOT/MAY verdicts; challenge format, distinctness over 20000 connections and across fresh processes.",
+   note="Unpredictability itself is not decidable by testing (format/distinctness/independence only). Clock injected via auth.time.",
+   tech="property-based testing: typed mutation catalogue + behavioural identity oracle"),
 }
 NA_REASON = "check under construction in this session; will be claimed when it is quiet and sensitive"
 
